@@ -561,5 +561,47 @@ func c17Ops() []c17Op {
 			spine.Events.Publish(api.EventPayload{Ski: cw.cn(s).ski, EventType: api.EventTypeDataChange, ChangeType: api.ElementChangeUpdate, Device: cw.rd(s), Feature: cw.rf(s, e1a, 2),
 				Function: model.FunctionTypeMeasurementListData, Data: c17MeasCmd(k, false).MeasurementListData})
 		}},
+
+		// ---- what the removal of a connection runs on every local feature (FeatureLocalInterface.CleanWriteApprovalCaches),
+		// called by the application in bursts for connections that are not the feature's writer (peer 1 and a connection without
+		// writer on [1]/1, peer 0 and an extra connection on [2]/3; the soak also cleans the writers' own entries), and - once per
+		// world and duellist, in its second round - the real thing: a writer (peer 0 of [1]/1 or peer 1 of [2]/3 in turn) whose write waits for its verdict
+		// loses its connection, comes back, binds again and writes again, so that the feature's per-connection approval maps
+		// (pending timers, counted approvals) are dropped and created anew while the opponent's writes, verdicts and timers use
+		// them. The preparation registers an approval callback on [1]/1, so that writes ARE pending in every prior state.
+		{name: "api.CleanWriteApprovalCaches+writer-reconnect", conn: true, prep: func(cw *c17W, s, side int) { cw.ensurePushCB() },
+			f: func(cw *c17W, s, side, k int) {
+				// duel: once per world and duellist, in its second round (then the bursts go on while the opponent works); soak: every 16th time
+				if (cw.soak && k%16 == 1) || (!cw.soak && k%c17InnerN == 1 && cw.churned[side].CompareAndSwap(false, true)) {
+					w := (s + k/c17InnerN) % 2
+					f := []api.FeatureLocalInterface{cw.lc, cw.lc2}[w]
+					cw.in(w, model.CmdClassifierTypeWrite, cw.pa(w, e1a, 1), f.Address(), true, nil, c17LimCmd(80+side+2*k))
+					cw.reconnect(w)
+					cw.in(w, model.CmdClassifierTypeWrite, cw.pa(w, e1a, 1), f.Address(), true, nil, c17LimCmd(81+side+2*k))
+					return
+				}
+				extra := fmt.Sprintf("%s-extra%d", cw.w.Tag, side)
+				for i := 0; i < 8; i++ {
+					c17Rot(k+i, func() { cw.lc.CleanWriteApprovalCaches(cw.cn(1).ski) }, func() { cw.lc2.CleanWriteApprovalCaches(cw.cn(0).ski) },
+						func() { cw.lc.CleanWriteApprovalCaches(cw.mutes[0].ski) }, func() { cw.lc2.CleanWriteApprovalCaches(extra) })
+				}
+				if cw.soak && k%4 == 0 {
+					cw.lc.CleanWriteApprovalCaches(cw.cn(0).ski)
+					cw.lc2.CleanWriteApprovalCaches(cw.cn(1).ski)
+				}
+			}},
+
+		// ---- the heartbeat manager of entity [1] is given its DeviceDiagnosis feature AGAIN through the public
+		// HeartbeatManagerInterface while its stream is running and HAS TICKED (timeout 100 ms): the preparation sleeps until
+		// just after the next tick of the stream that runs since the world was built - blindly, by the clock: observing the
+		// tick through DataCopy or a writer would order the tick before this operation for the race detector, and a sleep
+		// that misses the tick only makes the repetition less sharp. (Last in the list: its preparation is the last thing
+		// before the duel. hb.addFunction(entity[2]) reaches the same method on a manager whose stream has not ticked yet.)
+		{name: "hb.SetLocalFeature(running+ticked)", rare: 2,
+			prep: func(cw *c17W, s, side int) {
+				el := time.Duration(time.Now().UnixNano() - cw.hbStart.Load())
+				time.Sleep(c17HbTimeout - el%c17HbTimeout + 10*time.Millisecond)
+			},
+			f: func(cw *c17W, s, side, k int) { cw.e1.HeartbeatManager().SetLocalFeature(cw.e1, cw.dd) }},
 	}
 }
